@@ -34,8 +34,8 @@ import json
 import os
 import sys
 
-# Classes whose codec is outside the idiom set.  value = id of the hand model in SchemaM.v
-# ("" = no Coq model: exercised by the oracle only).
+# Classes whose codec is outside the idiom set.  value = id of the hand model
+# (coq/Model/SchemaHand.v, see COQ_HAND below; a class without a Coq model is oracle-only).
 HAND = {
     "HIP": "hip",            # lengths packed together, data later
     "IPSECKEY": "ipseckey",  # Gateway helper: branch on an earlier field
@@ -67,7 +67,8 @@ CTOR_CHECKS = {
     "CSYNC": "bitmapwrap",
 }
 
-# hand models that exist in coq/Model/SchemaM.v (others: H_none = oracle only)
+# hand models that exist in coq/Model/SchemaHand.v (emitted as `hand_table`; the table itself
+# lists hand classes as `mk_hand .. H_none` so that get_rdata_class resolution sees their modules)
 COQ_HAND = {"hip": "HHip", "ipseckey": "HIpseckey", "amtrelay": "HAmtrelay", "apl": "HApl", "svcb": "HSvcb", "loc": "HLoc", "opt": "HOpt"}
 
 UMAX = {1: 255, 2: 65535, 4: 4294967295, 6: 281474976710655}
